@@ -3,11 +3,28 @@ from checks._chain_check import run_chain_check
 PID = "C13"
 ENGINES = ["chain"]
 
+# reach quotas (quick tier; the thorough tier replays ~10x as much): what the profiles exist for must be reached
+NEED = {
+    "accepted:two_tx_block": 10, "accepted:two_locked_kernels": 1, "accepted:coinbase_spent_at_maturity": 5,
+    "why:lock": 3, "why:lock_one_of_two": 2, "why:lock_one_of_two_locked": 2,
+    "why:immature_coinbase_by_one": 1,
+    "query:two_kernels": 10, "query:lock_refused_one_of_two_kernels": 3, "query:immature_refused": 5,
+    "accepted:nrd_block": 20, "accepted:two_nrd_block": 5, "rewound:two_nrd_block": 1,
+    "why:nrd_relative": 5, "why:nrd_header_version": 3, "why:nrd_disabled": 10, "query:nrd_or_dup_refused": 3,
+}
+
 
 def run(tier, replay):
     return run_chain_check(PID, tier, replay,
-                           mc_quick=["mc/MC_Chain_locks_q"], mc_thorough=["mc/MC_Chain_locks_t", "mc/MC_Chain_nrd_t"],
-                           sim_cfg="mc/MC_Chain_simemit_locks", n_quick=100, n_thorough=1200,
-                           extra_sims=[("mc/MC_Chain_simemit_nrd", 60, 600)],
-                           focus="MaturityLockInv + NrdInv (recent-kernel index = NRD history of the best chain; duplicate-excess kernels on the same and on competing forks separated by rewinds): coinbase spends one below / at / above creation height + 3 incl. coinbases on the other side of a fork point, height-locked kernels with lock in {h, h+1}, re-evaluated when fork blocks are re-applied during reorgs; accept/reject class compared at each boundary",
-                           assumptions=["NRD kernels: 2 excess keys, relative heights {1,2}, allowed from height 9 (header v4 under AutomatedTesting); exhaustive NRD configuration in the thorough tier only, quick tier replays random NRD behaviours"])
+                           mc_quick=["mc/MC_Chain_locks_q"], mc_thorough=["mc/MC_Chain_locks_t", "mc/MC_Chain_nrd_t", "mc/MC_Chain_locks2_t"],
+                           sim_cfg="mc/MC_Chain_simemit_locks", n_quick=60, n_thorough=1200,
+                           extra_sims=[
+                               # two transactions = two kernels per block and per pool query (aggregate): lock heights {0,h,h+1} on each
+                               ("mc/MC_Chain_simemit_locks2", 60, 600),
+                               # NRD kernels, up to two (different excesses) per block; the head of the recent-kernel index is compared after every step
+                               ("mc/MC_Chain_simemit_nrd2", 50, 600),
+                               # the same with the node's NRD feature flag off: every NRD kernel is refused
+                               ("mc/MC_Chain_simemit_nrdoff", 14, 100)],
+                           focus="MaturityLockInv + NrdInv (recent-kernel index = NRD history of the best chain; duplicate-excess kernels on the same and on competing forks separated by rewinds): coinbase spends one below / at / above creation height + 3 incl. coinbases on the other side of a fork point, height-locked kernels with lock in {h, h+1} on EVERY kernel of bodies with one or two kernels (blocks of two transactions, pool queries about the aggregate of two), NRD kernels alone and in pairs, with the feature flag on and off, re-evaluated when fork blocks are re-applied during reorgs; accept/reject class compared at each boundary, head of the recent-kernel index after every step",
+                           assumptions=["NRD kernels: 2 excess keys, relative heights {1,2}, allowed from height 9 (header v4 under AutomatedTesting); two NRD kernels of one block carry different excesses; exhaustive NRD configuration in the thorough tier only, quick tier replays random NRD behaviours"],
+                           need=NEED)
